@@ -46,6 +46,13 @@ def reject_variants(doc):
             d2.append({"t": "url", "path": b["path"] + ["zlonger"], "tags": [], "pathdecl": [], "methods": [],
                        "extra_first": [raw("Path", "Path", "{", '  "%s": 1' % par[0], "}")]})
             res.append(("declared_twice", d2))
+            # a second Path directive of the URL block, written after a method that has a Path directive of its own
+            if len(par) >= 2:
+                d2b = copy.deepcopy(d0)
+                d2b[i]["extra_first"] = [raw("Path", "Path", "{", '  "%s": 1' % par[0], "}"),
+                                         raw("GET", "PATCH", "(", "  Path", "  {", '    "%s": 1' % par[1], "  }", "  200 any", ")"),
+                                         raw("Path", "Path", "{", '  "zlate": 1', "}")]
+                res.append(("second_path_after_a_method_with_its_own", d2b))
             # not a flat object
             d3 = copy.deepcopy(d0)
             d3[i]["extra_first"] = [raw("Path", "Path", "{", '  "%s": {' % par[0], '    "deep": 1', "  }", "}")]
